@@ -24,7 +24,12 @@ RULE = ("classes of the documented recovery table (missing value, unexpected val
         "bare value, duplicate / invalid block and frame codes, disallowed / unterminated / nested / unexpected-terminator "
         "save frames) x every position of 8 hand-written and 40 random hosts, CIF 2.0 and CIF 1.1; plus every host without a "
         "defect; non-trivial = a defect was planted; oracle (implementation only): first callback = documented code at a line "
-        "in [defect, following token], content = documented recovery applied to the host, defect-free host = no callback")
+        "in [defect, following token], content = documented recovery applied to the host, defect-free host = no callback.  "
+        "Group gW: hosts whose save frames NEST (max_frame_depth -1; the container-level classes planted at every depth); PAIRS of "
+        "single-report defects in different elements of one container (note P: exactly the two codes, in document order, each on "
+        "its lines, content = both recoveries) and the pair that meets in one loop (dup header name + short last packet, note M); "
+        "SEVERAL defective places in one token / comment (note M: every place reported once, in order); the ABORT-ON-ERROR handler "
+        "(policy d, note DIE: return value = code, exactly one callback, content = what stands in front of the defect)")
 
 S = lambda t, p="bare": ("str", t, p)      # noqa: E731
 # unquoted words that begin like a block / frame header without being one (the scanner tracks a keyword in progress)
@@ -282,6 +287,23 @@ def plant_container_level(doc, dia, r):
                         result = packets[:-1] + [last[:keep] + [("unk",)] * (len(names) - keep)]
                         yield ("partial_packet/%s/keep%d" % (tag, keep), with_elems(doc, path, elems[:k] + [("loop", names, planted)] + elems[k + 1:]),
                                with_elems(doc, path, elems[:k] + [("loop", names, result)] + elems[k + 1:]), 53, {"mark_last": True}, None)
+                # a repeated header name AND a truncated final packet in the same loop (parse_loop_packets counts columns with the
+                # full header, drops the values of the dropped column and pads the retained columns): two reports, 41 then 53
+                if packets and len(names) >= 1:
+                    for pos in range(1, len(names) + 1):
+                        width = len(names) + 1
+                        hdr = names[:pos] + [("mark", variant(names[pos - 1], r))] + names[pos:]
+                        full = [p[:pos] + [S("dropped", "sq")] + p[pos:] for p in packets]
+                        for keep in sorted(set([1, pos, min(pos + 1, width - 1), width - 1])):
+                            if not (1 <= keep < width):
+                                continue
+                            planted = full[:-1] + [full[-1][:keep] + [("skip",)] * (width - keep)]
+                            padded = full[-1][:keep] + [("unk",)] * (width - keep)
+                            result = packets[:-1] + [padded[:pos] + padded[pos + 1:]]
+                            yield ("dup_header_partial/%s/col%d/keep%d" % (tag, pos, keep),
+                                   with_elems(doc, path, elems[:k] + [("loop", hdr, planted)] + elems[k + 1:]),
+                                   with_elems(doc, path, elems[:k] + [("loop", names, result)] + elems[k + 1:]), 41,
+                                   {"codes": [41, 53], "span_all": True}, None)
                 # stray closing delimiter in the body: ignored
                 if dia == 2 and packets:
                     for st in ("]", "}"):
@@ -653,6 +675,8 @@ def case_request(label, planted, result, code, opts, alt, dia, r, style="lines",
         hi = spans[nxt][4] if nxt < len(spans) and not opts.get("hi_eof") else last_line
         if opts.get("mark_after"):
             lo = spans[mi][3]
+    if opts.get("span_all"):
+        lo, hi = 1, last_line
     if opts.get("codes"):
         # every report of the planted token, in order (each place of a token with several defects is reported once)
         note = ["M", label, ",".join(str(c) for c in opts["codes"]), str(lo), str(hi), "X"] + expected_dump(result, dia).split(" ")[1:]
